@@ -4,8 +4,10 @@ MC: MC_Tokens — every behaviour of <= MaxSteps calls over an 18-letter alphabe
     (exact integer sum of balances + deferred amounts never above the start), Exactness (stored balances = exact integers: no
     wrap), Covered (caller never below its threshold), CashNoChange / AbortNoChange (action properties).
 G:  HostCall_Gen "tokmc" (words over the model's alphabet from the model's initial contexts, small and near-2^64 balances)
-    and "tokens" (behaviours of the specification with amounts / code lengths drawn around the caller's free balance, its
-    balance, 2^32, 2^63 and 2^64 in the state reached so far).
+    "tokens" (behaviours of the specification with amounts / code lengths drawn around the caller's free balance, its
+    balance, 2^32, 2^63 and 2^64 in the state reached so far) and "tokthr" (a caller whose recorded footprint and gratis offset come
+    from the threshold boundary grid of C09 - sums of 2^64 and more included - with balance = threshold + 1000: transfers and
+    creations of free-1 / free / free+1).
 X:  harness/hostcall runs every behaviour on the real AccumulateOmegas functions over one HostCallArgs.
 V:  HostCall_Trace mode c08 on every step: exact sums, CASH / abort change no balance, exact outcome of new / transfer / eject /
     upgrade / checkpoint."""
@@ -33,8 +35,9 @@ def run(ctx):
             casefiles = [p for p in hc.replay_cases(ctx)[:1] if p]
         else:
             f1 = [ex.submit(hc.gen, ctx, "tokmc", 0, 2, ctx.seed)] if quick else hc.gen_parts(ex, ctx, "tokmc", 2400, 5, 4)
-            f2 = hc.gen_parts(ex, ctx, "tokens", 24 if quick else 800, 12 if quick else 20, 1 if quick else 6)
-            casefiles = [f.result() for f in f1 + f2]
+            f2 = hc.gen_parts(ex, ctx, "tokens", 16 if quick else 800, 12 if quick else 20, 1 if quick else 6)
+            f3 = [ex.submit(hc.gen, ctx, "tokthr", 10 if quick else 0, 1, ctx.seed)]
+            casefiles = [f.result() for f in f1 + f2 + f3]
         binp = fb.result()
         lines = hc.run_cases(ctx, binp, casefiles) if casefiles else []
         fmc.result()
